@@ -3,6 +3,12 @@ From Coq Require Import ZArith NArith List Bool Lia.
 Import ListNotations.
 From Cffi Require Import C27.Model.
 
+(* ---------- the regenerated key recipes are the ones the model of the keys relies on *)
+Lemma func_key_stored_ok : func_key_stored = true. Proof. reflexivity. Qed.
+Lemma keys_as_modelled_ok : keys_as_modelled = true. Proof. reflexivity. Qed.
+Lemma key_kids_ok h sh kids : key_kids h sh kids = ref_kids h sh kids.
+Proof. unfold key_kids. rewrite func_key_stored_ok. rewrite andb_false_r. reflexivity. Qed.
+
 (* ---------- boolean equalities *)
 Lemma shape_eqb_spec a b : reflect (a = b) (shape_eqb a b).
 Proof.
@@ -170,11 +176,13 @@ Proof. intros H. unfold key_of. f_equal. apply map_ext_in. exact H. Qed.
 (* ---------- preservation *)
 Lemma step_inv s o : Inv s -> Inv (fst (step s o)).
 Proof.
-  intros HI. destruct o as [h sh kids a|i kids|h|i|os]; cbn [step].
+  intros HI. destruct o as [h sh kids0 a|i kids|h|i|os]; cbn [step].
   - (* New *)
+    rewrite key_kids_ok. set (kids := ref_kids (heap s) sh kids0).
     destruct (match hlookup h (handles s) with Some _ => true | None => false end
-              || negb (forallb (alive_nz (heap s)) kids) || occupied (heap s) a) eqn:Hpre; [auto|].
-    apply orb_false_iff in Hpre as [Hpre Hocc]. apply orb_false_iff in Hpre as [_ Hk].
+              || negb (forallb (alive_nz (heap s)) kids0) || negb (forallb (alive_nz (heap s)) kids)
+              || occupied (heap s) a) eqn:Hpre; [auto|].
+    apply orb_false_iff in Hpre as [Hpre Hocc]. apply orb_false_iff in Hpre as [Hpre Hk].
     apply negb_false_iff in Hk. rewrite forallb_forall in Hk.
     destruct HI as [I1 I2 I3 I4 I5 I6 I7 I8].
     set (n := next_oid s) in *.
@@ -451,17 +459,20 @@ Qed.
 (* what building a type returns: an object with EXACTLY the requested description (no false
    sharing through stale keys or reused addresses); the existing one if a live one exists,
    otherwise a brand-new object *)
-Theorem new_returns s h sh kids a i :
-  reachable s -> is_agg sh = false -> snd (step s (New h sh kids a)) = ORet i ->
-  let s' := fst (step s (New h sh kids a)) in
+Theorem new_returns s h sh kids0 a i :
+  reachable s -> is_agg sh = false -> snd (step s (New h sh kids0 a)) = ORet i ->
+  let s' := fst (step s (New h sh kids0 a)) in
+  let kids := ref_kids (heap s) sh kids0 in
   exists o, find_obj i (heap s') = Some o /\ t_zombie o = false /\ t_shape o = sh /\ t_kids o = kids /\
             (In o (heap s) \/ (i = next_oid s /\
                                forall o0, In o0 (heap s) -> t_zombie o0 = false ->
                                           ~ (t_shape o0 = sh /\ t_kids o0 = kids))).
 Proof.
   intros HR Hag H. pose proof (reachable_inv _ HR) as HI. cbn [step] in *.
+  rewrite key_kids_ok in *. set (kids := ref_kids (heap s) sh kids0) in *.
   destruct (match hlookup h (handles s) with Some _ => true | None => false end
-            || negb (forallb (alive_nz (heap s)) kids) || occupied (heap s) a) eqn:Hpre; [discriminate|].
+            || negb (forallb (alive_nz (heap s)) kids0) || negb (forallb (alive_nz (heap s)) kids)
+            || occupied (heap s) a) eqn:Hpre; [discriminate|].
   apply orb_false_iff in Hpre as [Hpre Hocc]. apply orb_false_iff in Hpre as [_ Hk].
   apply negb_false_iff in Hk. rewrite forallb_forall in Hk.
   rewrite Hag in *. destruct HI as [I1 I2 I3 I4 I5 I6 I7 I8].
@@ -512,9 +523,10 @@ Theorem rebuild_after_free s i o h sh kids a r :
   snd (step s (Free i)) = ODone ->
   t_shape o = sh -> t_kids o = kids ->
   let s1 := fst (step s (Free i)) in
+  ref_kids (heap s1) sh kids = kids ->        (* kids are already what the type references *)
   snd (step s1 (New h sh kids a)) = ORet r -> r = next_oid s1.
 Proof.
-  intros HR Hf Hz Ha Hfree Es Ek s1 Hnew.
+  intros HR Hf Hz Ha Hfree Es Ek s1 Hrk Hnew.
   assert (HR1 : reachable s1).
   { destruct HR as [hh ->]. exists (hh ++ [Free i]). subst s1.
     assert (G : forall hh s0, fst (run s0 (hh ++ [Free i])) = fst (step (fst (run s0 hh)) (Free i))).
@@ -525,10 +537,32 @@ Proof.
     rewrite G. reflexivity. }
   assert (Hsh : is_agg sh = false) by congruence.
   destruct (new_returns _ _ _ _ _ _ HR1 Hsh Hnew) as (o' & Hf' & Hz' & Es' & Ek' & [Hin|[E _]]); auto.
+  rewrite Hrk in Ek'.
   (* an existing live object with this description would have been o itself *)
   exfalso. subst s1. rewrite (free_heap _ _ Hfree) in Hin.
   apply In_heap_del in Hin as [Hin Hne]. apply find_obj_In in Hf as [Hino Eo].
   assert (o' = o).
   { apply (canonical s o' o); auto; congruence. }
   subst. congruence.
+Qed.
+
+(* the decayed arguments are alive whenever the given ones are: the third test of [New] is redundant
+   on reachable states (an array type keeps its pointer type alive) *)
+Lemma decay_alive s i : Inv s -> alive_nz (heap s) i = true -> alive_nz (heap s) (decay (heap s) i) = true.
+Proof.
+  intros HI Hal. unfold decay. destruct (alive_nz_In _ _ Hal) as (o & Hf & Hz). rewrite Hf.
+  destruct (N.eqb (fst (t_shape o)) 3); auto.
+  destruct (t_kids o) as [|c rest] eqn:Hk; cbn; auto.
+  apply find_obj_In in Hf as [Hin _]. destruct HI as [_ _ _ _ I5 _ _ _].
+  apply (I5 o Hin Hz c). rewrite Hk. left; auto.
+Qed.
+
+Theorem ref_kids_alive s sh kids0 :
+  reachable s -> forallb (alive_nz (heap s)) kids0 = true ->
+  forallb (alive_nz (heap s)) (ref_kids (heap s) sh kids0) = true.
+Proof.
+  intros HR H. apply reachable_inv in HR. unfold ref_kids. destruct (N.eqb (fst sh) 4); auto.
+  destruct kids0 as [|res args]; auto. cbn in *. apply andb_true_iff in H as [Hr Ha]. rewrite Hr. cbn.
+  rewrite forallb_forall in *. intros c Hc. apply in_map_iff in Hc as [a0 [E Ha0]]. subst.
+  apply decay_alive; auto.
 Qed.
